@@ -151,7 +151,7 @@ def prm_to_dict(p):
 
 
 def model_frame_desc(raw, prm, name):
-    rows = [[r['c'], -DT * (10 - r['t']), None if r['h'] == -1 else r['h'], r['k']] for r in raw]
+    rows = [[r['c'], -DT * (10 - r['t']), None if r['h'] <= -1000000 else r['h'], r['k']] for r in raw]
     return {'family': 'F1', 'name': name, 'rows': rows, 'prms': prm_to_dict(prm), 'indomain': True}
 
 
